@@ -100,7 +100,18 @@ def check(case):
         import penman as _p
         _p.format(t, compact=True)
         t.nodes()
+        if case.get('rearr'):
+            # the tree is re-ordered IN PLACE after it was inspected: names follow the order it has now
+            layout.rearrange(t, key=m0.canonical_order, attributes_first=True)
+            node = interp.to_node(interp.to_json(t.node))
+            vm = ref_varmap(node, fmt_)
+            if len(set(vm.values())) != len(vm):
+                return []
+    held = t.node          # whoever still holds the old node object keeps the old tree: relabelling builds a new one
+    held_json = interp.to_json(held)
     t.reset_variables(fmt_)
+    if interp.to_json(held) != held_json:
+        return [('old-node-object-rewritten', '%s fmt=%r: the node held before the call became %s' % (fmt(node), fmt_, fmt(held)))]
     want = rename_tree(node, vm)
     if t.node != want:
         f.append(('relabelled-tree', '%s fmt=%r -> %s, expected %s' % (fmt(node), fmt_, fmt(t.node), fmt(want))))
@@ -176,6 +187,7 @@ def classes(case):
     if s['reent'] and s['aligned']: out.append('maybe-aligned-reentrancy')
     if _late_concept(node): out.append('concept-branch-not-first')
     if case.get('parsed'): out.append('tree-from-parser')
+    if case.get('touch') and case.get('rearr'): out.append('rearranged-in-place-before')
     return out
 
 
@@ -250,7 +262,7 @@ def _cases(draw, large=False):
                 c = brs.pop(ix[0])
                 brs.insert(1 + (k - 1) % len(brs), c)
         mv(j)
-    return {'tree': j, 'model': spec, 'fmt': fmt_, 'touch': draw(st.booleans()), 'parsed': draw(st.integers(0, 2)) == 0}
+    return {'tree': j, 'model': spec, 'fmt': fmt_, 'touch': draw(st.booleans()), 'parsed': draw(st.integers(0, 2)) == 0, 'rearr': draw(st.integers(0, 2)) == 0}
 
 
 def _many_chunks(tier):
